@@ -7,6 +7,7 @@ import (
 	"io"
 	"net"
 	"runtime"
+	"strings"
 	"sync"
 	"time"
 
@@ -68,8 +69,14 @@ func sameMsg(a, b *rpc.Message) bool {
 }
 
 // CheckCodec enumerates the product of the small frame domains through the real rpc.Wire.Write -> rpc.Wire.Read.
-func CheckCodec() *CodecResult {
+func CheckCodec() *CodecResult { return checkCodec("") }
+
+// checkCodec(only): only == "" runs everything; otherwise only the part that can produce violation signature only
+// (used to confirm / replay a codec violation).
+func checkCodec(only string) *CodecResult {
 	res := &CodecResult{}
+	part1 := only == "" || (strings.HasPrefix(only, "roundtrip:codec:") && only != "roundtrip:codec:stream")
+	part2 := only == "" || !part1
 	var mu sync.Mutex
 	viol := func(oracle, sig, f string, a ...interface{}) {
 		mu.Lock()
@@ -95,7 +102,7 @@ func CheckCodec() *CodecResult {
 	}
 	var rt, tr, bm, bb, lm int64
 	add := func(p *int64, n int64) { mu.Lock(); *p += n; mu.Unlock() }
-	for typ := uint32(0); typ <= 9; typ++ {
+	for typ := uint32(0); typ <= 9 && part1; typ++ {
 		for _, ln := range lens {
 			for pat := 0; pat < 3; pat++ {
 				typ, ln, pat := typ, ln, pat
@@ -138,7 +145,7 @@ func CheckCodec() *CodecResult {
 		}
 	}
 	// every truncation point, bad magic / version, two frames back to back
-	for typ := uint32(0); typ <= 9; typ++ {
+	for typ := uint32(0); typ <= 9 && part2; typ++ {
 		for _, ln := range lens {
 			typ, ln := typ, ln
 			tasks <- func() {
@@ -147,7 +154,7 @@ func CheckCodec() *CodecResult {
 				rpc.NewWire(c).Write(m)
 				enc := append([]byte(nil), c.Bytes()...)
 				var n int64
-				for t := 0; t < len(enc); t++ {
+				for t := 0; t < len(enc) && (only == "" || strings.HasPrefix(only, "truncation")); t++ {
 					if ln > 8097 && t > 64 && t < len(enc)-64 && t%4096 > 1 && t%4096 < 4095 {
 						continue // the 64 KiB frame: header, both ends and every 4 KiB boundary +-1
 					}
